@@ -24,6 +24,15 @@ through getters and ships *scheduler call records* to TLC:
                     profiles count against the capacity) - in simulations of their own and in the direct calls.  The
                     families with recorded findings (bp_logfix, batching, models whose loading strategy shares a
                     resource type with execution) run on a fixed corpus (no VERIF_SEED) so that their keys are stable.
+ (h) histories      stateful policies (Clockwork keeps request queues between calls) are judged on multi-invocation
+                    histories with boundary timing: real simulations keep ONE policy object alive while requests are left
+                    waiting across invocations (partial batch, busy worker, model still loading / held by another worker
+                    only) and an arrival / a finish / the end of a load makes them placeable exactly at, one instant
+                    before and one instant after deadline - runtime(s) for every strategy s of the model (and at the
+                    deadline itself); a directed grid plus seeded members whose releases and deadlines are drawn on the
+                    instants of the history; also under EDF / FIFO with deadline enforcement.  Every invocation is a
+                    judged record; the record carries hist = (invocation number, per task: offered how often before)
+                    and Decision!History classifies it (history_classes in the evidence).
  (c) judgement      the records are written as JSON batches; one TLC JVM per batch evaluates
                     Decision!Judge on every record and prints the failing (record, clause,
                     offenders, circumstance) tuples, which become res.violate(...).
@@ -92,6 +101,10 @@ ASSUMPTIONS = [
     "the worlds simulated under ILP / TetriSched / Z3-style planners use --runtime_variance=0: all bundled planners model a "
     "running task as busy for its strategy's nominal runtime from the invocation on, which covers now + remaining time only "
     "when tasks never run longer than their strategy says (with variance they can); the greedy policies' worlds use variance",
+    "histories (part h): the simulator itself applies the answers between the invocations (runtime 0: it invokes the policy at "
+    "every release and finish and, while a waiting request has a free worker holding its model, at every instant); the release "
+    "times and deadlines of the requests are chosen by the harness (deadline = release + Job.slo, no variance) - which "
+    "invocation meets which boundary is classified by Decision!History from the record, not by the harness",
     "staged states (part b'): a scripted stage policy starts chosen tasks late / plans them for later on named workers in "
     "a real simulation that is stopped at the release of the late tasks - RUNNING tasks past their deadline, with little / "
     "much remaining time, future plans on the only fitting worker, releases at / after another task's deadline, tight and "
@@ -429,13 +442,16 @@ class Recorder:
 # worlds
 
 
-def _preload_profiles(pools, profs):
+def _preload_profiles(pools, profs, pmap=None):
     """Clockwork only places a model's requests on workers that hold the model: load every profile on every
-    worker with a resource-free loading strategy (as tests/test_clockwork_scheduler.py does by hand)."""
+    worker with a resource-free loading strategy (as tests/test_clockwork_scheduler.py does by hand).
+    pmap (optional): per profile the list of [pool, worker] numbers that hold it (None = every worker)."""
     N = ns()
-    for pool in pools.worker_pools:
-        for w in pool.workers:
-            for p in profs:
+    for pi, pool in enumerate(pools.worker_pools, start=1):
+        for wi, w in enumerate(pool.workers, start=1):
+            for k, p in enumerate(profs):
+                if pmap is not None and pmap[k] is not None and [pi, wi] not in pmap[k]:
+                    continue
                 w.load_profile(p, N.ExecutionStrategy(resources=N.Resources(), batch_size=1, runtime=us(0)))
             w.step(us(0), us(1))
 
@@ -454,7 +470,7 @@ def build_world(world, sched_factory=None):
     workload.populate_task_graphs(completion_time=us(fl["timeout"]))
     pools = worlds.build_pools(world)
     if world.get("preload"):
-        _preload_profiles(pools, profs)
+        _preload_profiles(pools, profs, world.get("preload_map"))
     sched = sched_factory(world, flags, sc) if sched_factory else worlds.build_scheduler(world, flags, sc)
     loader = worlds.make_loader(workload)
     return pools, sched, loader, flags, fl, sc, profs
@@ -804,6 +820,186 @@ def gen_staged_world(rnd, idx):
 
 
 # ---------------------------------------------------------------------------
+# histories (part h): ONE policy object over many invocations of a real simulation, requests left waiting between
+# invocations (partial batch, busy worker, model still loading), invocations at the instants the policy compares against
+
+
+def hist_world(name, models, reqs, pools, sched, freq=-1, seed=1, preload_map=None, family="hist"):
+    """models: [{"strats": [(batch size, runtime[, gpus])], "load": None | (mem, loading time)}];
+    reqs: [(model, release, deadline)] - every request is a one-job graph released once, deadline = release + slo (no
+    variance).  Without run_load the harness loads the models on the workers (all, or those of preload_map); with it the
+    policy loads them itself.  The scheduler runtime is 0, so the simulator invokes the policy at every release, at every
+    finish and - while something it might place is waiting - at every instant (or every `freq` instants)."""
+    R = worlds.R
+    profiles = []
+    for k, m in enumerate(models):
+        ld = m.get("load")
+        profiles.append({"name": f"M{k}", "strats": [{"dem": [R("gpu", "any", st[2] if len(st) > 2 else 1)], "rt": st[1], "bs": st[0]} for st in m["strats"]],
+                         "loading": [{"dem": [R("mem", "any", ld[0])] if ld else [], "rt": ld[1] if ld else 0, "bs": 1}]})  # fmt: skip
+    graphs = [{"name": f"Q{i}", "jobs": [{"name": "R", "profile": m, "slo": max(0, dl - rel)}],
+               "policy": {"type": "fixed", "period": 1, "n": 1, "start": rel}, "dv": [0, 0]} for i, (m, rel, dl) in enumerate(reqs)]  # fmt: skip
+    w = {"name": name, "family": family, "profiles": profiles, "graphs": graphs, "pools": pools, "seed": seed, "sched": dict(sched, runtime=0),
+         "flags": {"timeout": max(dl for _, _, dl in reqs) + 12, "frequency": freq, "variance": 0}, "max_calls": 48}  # fmt: skip
+    if not sched.get("run_load"):
+        w["preload"] = True
+        if preload_map:
+            w["preload_map"] = preload_map
+    return w
+
+
+def _cw(goal, **k):
+    return dict({"kind": "clockwork", "cw_goal": goal}, **k)
+
+
+def directed_history_worlds(tier):
+    """The grid of part (h).  A request W is queued by an early invocation and cannot be placed then; at the instant T
+    something makes it placeable: (batch) the arrival that completes its batch, (busy) the finish of the task that
+    occupies the only worker holding its model, (load) the end of the model's loading.  W's deadline is
+    T + runtime(s) + d for every strategy s of its model and d in -1, 0, +1 (thorough: -2..2): the invocation at T meets
+    W exactly at / one instant before / after the last instant at which s can still finish it (runtime 0: the deadline
+    itself).  While W waits beside a free worker the simulator invokes the policy at every instant, so every earlier
+    boundary is met too - with nothing placeable.  Both Clockwork goals; the busy-worker members also under EDF / FIFO
+    with deadline enforcement (their admission compares the same quantities)."""
+    I = worlds.I
+    T, a, b, LOOSE = 4, 3, 5, 15
+    deltas = (-1, 0, 1) if tier == "quick" else (-2, -1, 0, 1, 2)
+    goals = ("clockwork", "least_slack")
+    one = [[[I("gpu", "g1", 1)]]]
+    out, n = [], [0]
+
+    def goals_for(d):
+        n[0] += 1
+        return goals if d == 0 else (goals[n[0] % 2],)
+
+    # (batch) strategies: batches of 2 | of 2 and (slower) of 3 | of 3 (two waiting members) | of 2 and a single-request
+    # strategy too slow for W
+    for vname, strats, extra, rts in (("b2", [(2, a)], [], (a,)), ("b2b3", [(2, a), (3, b)], [], (a, b)),
+                                     ("b3", [(3, a)], [(0, 1, LOOSE)], (a,)), ("b2s1", [(2, a), (1, T + a + 3)], [], (a,))):  # fmt: skip
+        for rt in rts:
+            for d in deltas:
+                for g in goals_for(d):
+                    out.append(hist_world(f"hist_batch_{vname}_rt{rt}{d:+d}_{g}", [{"strats": strats}],
+                                          [(0, 0, T + rt + d)] + extra + [(0, T, LOOSE)], one, _cw(g)))  # fmt: skip
+    # the same with an invocation every 2 instants only (the boundary is met without the invocations before it)
+    for d in deltas:
+        out.append(hist_world(f"hist_batch_b2_rt{a}{d:+d}_every2", [{"strats": [(2, a)]}], [(0, 0, T + a + d), (0, T, LOOSE)], one,
+                              _cw(goals[d % 2]), freq=2))  # fmt: skip
+    # (busy) a blocker (model 0) runs on the only gpu from 0 to T; W (model 1) arrives at 1
+    # (runtime 0: the deadline itself is met by the invocation at the finish - the blocker then runs until T + 2, so that W
+    # survives the invocations at its arrival and one instant later)
+    blocker = {"strats": [(1, T)]}
+    for vname, strats, extra, rts in (("s1", [(1, a)], [], (a, 0)), ("s1b2", [(1, a), (2, b)], [(1, 2, LOOSE)], (a, b))):
+        for rt in rts:
+            Tb = T if rt else T + 2
+            for d in deltas:
+                pols = [_cw(g) for g in goals_for(d)]
+                if vname == "s1":
+                    pols += [{"kind": "edf", "enforce": True}, {"kind": "fifo", "enforce": True}]
+                for sc in pols:
+                    out.append(hist_world(f"hist_busy_{vname}_rt{rt}{d:+d}_{sc.get('cw_goal', sc['kind'])}", [{"strats": [(1, Tb)]}, {"strats": strats}],
+                                          [(0, 0, LOOSE), (1, 1, Tb + rt + d)] + extra, one, sc))  # fmt: skip
+    # ... and a second, free worker that does not hold the models
+    two = [[[I("gpu", "g1", 1)], [I("gpu", "g2", 1)]]]
+    for d in deltas:
+        out.append(hist_world(f"hist_busy_other_worker_rt{a}{d:+d}", [blocker, {"strats": [(1, a)]}], [(0, 0, LOOSE), (1, 1, T + a + d)], two,
+                              _cw(goals[d % 2]), preload_map=[[[1, 2]], [[1, 2]]]))  # fmt: skip
+    # (load) the policy loads W's model itself (done at T); a request of another model arrives at T
+    for d in deltas:
+        for g in goals_for(d):
+            out.append(hist_world(f"hist_load_rt{a}{d:+d}_{g}", [{"strats": [(1, a)], "load": (1, T)}, {"strats": [(1, 2)], "load": (1, 1)}],
+                                  [(0, 0, T + a + d), (1, T, LOOSE)], [[[I("gpu", "g1", 2), I("mem", "m1", 3)]]], _cw(g, run_load=True)))  # fmt: skip
+    # first seen AT the boundary (no history needed, the same comparison): three requests released together at 2 with
+    # deadline 2 + a + d, three gpus
+    for sc in (_cw("clockwork"), _cw("least_slack"), {"kind": "edf", "enforce": True}, {"kind": "fifo", "enforce": True}):
+        out.append(hist_world(f"hist_first_seen_{sc.get('cw_goal', sc['kind'])}", [{"strats": [(1, a)]}], [(0, 2, 2 + a + d) for d in deltas],
+                              [[[I("gpu", "g1", 3)]]], sc))  # fmt: skip
+    for g in goals:
+        # nothing ever completes the batch | the partner arrives one instant after W's last chance
+        out.append(hist_world(f"hist_alone_{g}", [{"strats": [(2, a)]}], [(0, 0, T + a)], one, _cw(g)))
+        out.append(hist_world(f"hist_late_partner_{g}", [{"strats": [(2, a)]}], [(0, 0, T + a), (0, T + 1, LOOSE), (0, T + 2, LOOSE)], one, _cw(g)))
+        # two models, each with a request waiting at zero slack when both partners arrive; two gpus | one gpu
+        for cap in (2, 1):
+            out.append(hist_world(f"hist_two_models_{cap}gpu_{g}", [{"strats": [(2, a)]}, {"strats": [(2, a + 1)]}],
+                                  [(0, 0, T + a), (1, 1, T + a + 1), (0, T, LOOSE), (1, T, LOOSE)], [[[I("gpu", "g1", cap)]]], _cw(g)))  # fmt: skip
+    return out
+
+
+HIST_TEMPLATES = [
+    lambda a, b: [(2, a)], lambda a, b: [(1, a)], lambda a, b: [(1, a), (2, b)], lambda a, b: [(2, a), (3, b)],
+    lambda a, b: [(2, a), (1, b + 4)], lambda a, b: [(3, a)], lambda a, b: [(2, a), (4, b)], lambda a, b: [(1, a), (2, b), (3, b + 1)],
+]  # fmt: skip
+
+
+def gen_history_world(rnd, idx):
+    """seeded member of the history class: 1-2 models with batch-size strategies, 1-2 workers, blockers that keep gpus
+    busy for a while, models preloaded (on some workers) or loaded by the policy; releases and deadlines are drawn ON the
+    instants of the history (arrivals, finishes, ends of loading, last-chance instants deadline - runtime of requests
+    drawn before) plus -1 / 0 / +1, so that waiting requests meet invocations at the policy's own boundaries"""
+    I = worlds.I
+    nmod = rnd.choice([1, 1, 2])
+    run_load = rnd.random() < 0.25
+    models = []
+    for _ in range(nmod):
+        a = rnd.randint(2, 4)
+        m = {"strats": rnd.choice(HIST_TEMPLATES)(a, a + rnd.randint(1, 3))}
+        if run_load:
+            m["load"] = (1, rnd.randint(1, 4))
+        models.append(m)
+    nwk = rnd.choice([1, 1, 2])
+    caps = [rnd.choice([1, 1, 2, 3]) for _ in range(nwk)]
+    pools = [[[I("gpu", f"g{w}", caps[w])] + ([I("mem", f"m{w}", rnd.randint(nmod, nmod + 2))] if run_load else []) for w in range(nwk)]]
+    events = {0}
+    reqs = []
+    # blockers: a single-request model of their own, released at 0
+    nblock = rnd.choice([0, 0, 1, 1, 2])
+    if nblock:
+        F = rnd.randint(3, 7)
+        bm = {"strats": [(1, F)]}
+        if run_load:
+            bm["load"] = (1, 0)
+        models.append(bm)
+        for k in range(min(nblock, sum(caps))):
+            reqs.append((len(models) - 1, 0, 60))
+        events.add(F)
+    if run_load:
+        events |= {m["load"][1] for m in models}
+    pmap = None
+    if not run_load and nwk == 2 and rnd.random() < 0.4:
+        pmap = [rnd.choice([None, [[1, 1]], [[1, 2]]]) for _ in models]
+    waiting = []  # (model, last-chance instants) of the requests drawn so far
+    for _ in range(rnd.randint(3, 7)):
+        m = rnd.randrange(nmod)
+        ev = sorted(events)
+        if waiting and rnd.random() < 0.45:
+            # a partner / successor of an earlier request of the same model, arriving around one of its last-chance instants
+            m, chances = rnd.choice(waiting)
+            rel = max(0, rnd.choice(chances) + rnd.choice([-1, 0, 0, 0, 1]))
+        else:
+            rel = rnd.choice(ev) if rnd.random() < 0.55 else rnd.randint(0, 8)
+        rts = [st[1] for st in models[m]["strats"]]
+        later = [e for e in ev if e >= rel] or [rel]
+        kind = rnd.random()
+        if kind < 0.65:
+            dl = rnd.choice(later) + rnd.choice(rts) + rnd.choice([-1, 0, 0, 0, 1])
+        elif kind < 0.8:
+            dl = rnd.choice(later) + rnd.choice([-1, 0, 1])
+        else:
+            dl = rel + max(rts) + rnd.randint(6, 20)
+        dl = max(rel, dl)
+        reqs.append((m, rel, dl))
+        events.add(rel)
+        events |= {dl - rt for rt in rts if dl - rt >= 0}
+        if any(dl - rt > rel for rt in rts):
+            waiting.append((m, [dl - rt for rt in rts if dl - rt > rel]))
+    pol = rnd.random()
+    if pol < 0.8 or run_load:
+        sc = _cw(rnd.choice(["clockwork", "least_slack"]), **({"run_load": True} if run_load else {}))
+    else:
+        sc = {"kind": rnd.choice(["edf", "fifo"]), "enforce": True}
+    return hist_world("", models, reqs, pools, sc, freq=rnd.choice([-1, -1, -1, 1, 2]), seed=idx + 1, preload_map=pmap, family="hist_seeded")
+
+
+# ---------------------------------------------------------------------------
 # the prefix policy (part b)
 
 
@@ -1068,6 +1264,8 @@ def run_sim_world(world, widx, wall=60, max_calls=40):
             opts["enforce"] = True
         real = sched.schedule
         holder = {"n": 0}
+        max_calls = world.get("max_calls", max_calls)
+        seen = collections.Counter()  # task number -> in how many earlier invocations of this policy object it was offered
 
         class _Real:
             def schedule(self, sim_time, workload, pools):
@@ -1077,7 +1275,13 @@ def run_sim_world(world, widx, wall=60, max_calls=40):
             holder["n"] += 1
             if holder["n"] > max_calls:
                 raise _Stop()
-            pl, exc = rec.call(kind, opts, _Real(), sim_time, workload, worker_pools, {"part": "sim", "widx": widx, "call": holder["n"]})
+            n0 = len(rec.records)
+            pl, exc = rec.call(kind, opts, _Real(), sim_time, workload, worker_pools,
+                               {"part": "sim", "widx": widx, "call": holder["n"], "family": world.get("family", "")})
+            if len(rec.records) > n0:
+                r = rec.records[-1]
+                r["hist"] = {"call": holder["n"], "seen": [seen[i] for i in range(1, len(r["tasks"]) + 1)]}
+                seen.update(set(r["offered"]))
             if exc is not None:
                 raise exc
             return pl
@@ -1299,6 +1503,8 @@ def canaries(good):
     i0, t0 = 0, 4
     mut("C10.returns", lambda r: r.update(raised="RuntimeError: canary", decs=[]))
     mut("C10.one_per_task", lambda r: r["decs"].append(dict(r["decs"][1])))
+    # a CANCEL beside the PLACE of the same task (what a stateful policy does when its admission control and its queues disagree)
+    mut("C10.one_per_task", lambda r: r["decs"].insert(0, dict(r["decs"][1], kind=3, t=r["decs"][i0]["t"])))
     mut("C10.answers_all", lambda r: r["decs"].pop(i0))
     mut("C10.only_offered", lambda r: r.update(offered=[3]))
     mut("C10.names_exist", lambda r: r["decs"][i0].update(pool=2))
@@ -1368,6 +1574,38 @@ def state_classes(records, exercised):
     return {k: dict(sorted(v.items())) for k, v in sorted(out.items())}
 
 
+HISTORY_CLASSES = [
+    "later_invocation", "waiting_request", "waiting_placed", "waiting_cancelled", "waiting_unanswered", "first_seen_zero_slack",
+    "first_seen_slack_minus1", "first_seen_slack_plus1", "waiting_zero_slack", "waiting_slack_minus1", "waiting_slack_plus1",
+    "waiting_zero_slack_fastest", "waiting_zero_slack_slower_strategy", "waiting_zero_slack_fastest_placed",
+    "waiting_zero_slack_fastest_cancelled", "waiting_zero_slack_fastest_unanswered", "waiting_slack_minus1_fastest_cancelled",
+    "waiting_slack_plus1_fastest_placed", "offered_at_release", "offered_at_deadline", "waiting_at_deadline", "waiting_past_deadline",
+    "waiting_beside_busy_worker", "waiting_for_profile", "cancel_and_place_same_task",
+]  # fmt: skip
+
+
+def history_report(records, exercised, sims):
+    """part (h) in the evidence: per family and policy(+variant) how many judged invocations met each history class
+    (Decision!History); `all_simulations` counts the same classes over every simulated call of part (a)"""
+    fam = collections.defaultdict(lambda: collections.defaultdict(collections.Counter))
+    worlds_of = collections.defaultdict(set)
+    longest = collections.Counter()
+    for r in records:
+        if r["src"]["part"] != "sim":
+            continue
+        f = r["src"].get("family") or "other_simulations"
+        who = r["policy"] + r.get("variant", "")
+        worlds_of[f].add(r["src"]["widx"])
+        longest[f] = max(longest[f], r.get("hist", {}).get("call", 1))
+        c = fam[f][who]
+        c["invocations"] += 1
+        for x in exercised.get(r["id"], []):
+            if x in HISTORY_CLASSES:
+                c[x] += 1
+    return {f: {"worlds": len(worlds_of[f]), "longest_history": longest[f], "by_policy": {p: dict(sorted(c.items())) for p, c in sorted(pc.items())}}
+            for f, pc in sorted(fam.items())}  # fmt: skip
+
+
 def make_plan(tier):
     rnd = random.Random(f"c10:{seed()}:{tier}")
     if tier == "quick":
@@ -1395,6 +1633,10 @@ def make_plan(tier):
     prefixes += directed_staged_worlds(tier)
     prefixes += corpus["staged"]
     prefixes += [gen_staged_world(rnd2, i) for i in range(n_staged)]
+    # histories (part h): their own generator again
+    rnd3 = random.Random(f"c10-hist:{seed()}:{tier}")
+    sims += directed_history_worlds(tier)
+    sims += [gen_history_world(rnd3, i) for i in range(20 if tier == "quick" else 400)]
     return sims, prefixes
 
 
@@ -1567,6 +1809,12 @@ def run(tier: str) -> CheckResult:
         "C10.capacity(with held profiles / loads)": sum(1 for rid, ex in exercised.items() if "held_profile_resources" in ex or "load" in ex),
         "C10.capacity(batch joined)": ex_counts["batch_joined"],
         "C10.only_offered(preemptive: running task answered)": ex_counts["running_redecided"],
+        "C10.one_per_task(later invocation of the same policy object)": sum(1 for ex in exercised.values() if "later_invocation" in ex and "decided" in ex),
+        "C10.one_per_task(waiting request answered)": ex_counts["waiting_placed"] + ex_counts["waiting_cancelled"],
+        "C10.one_per_task(waiting request answered at zero slack of its fastest strategy)":
+            ex_counts["waiting_zero_slack_fastest_placed"] + ex_counts["waiting_zero_slack_fastest_cancelled"],
+        "C10.one_per_task(waiting request answered one instant before / after)":
+            ex_counts["waiting_slack_plus1_fastest_placed"] + ex_counts["waiting_slack_minus1_fastest_cancelled"],
         "C10.side_effect_free": len(records),
     }
     res.extra.update(
@@ -1581,6 +1829,9 @@ def run(tier: str) -> CheckResult:
             # the classes of reachable states (Decision!Exercised) met by the direct calls, per policy+variant
             "state_classes": state_classes(records, exercised),
             "staged_worlds": sum(1 for w in prefixes if w.get("staged")),
+            # part (h): one policy object over many invocations, waiting requests at the policy's boundary instants
+            "history_worlds": sum(1 for w in sims if str(w.get("family", "")).startswith("hist")),
+            "history_classes": history_report(records, exercised, sims),
             "failing_records_by_key": {k: len(v) for k, v in sorted(by_key.items())},
             "side_clause_notes": dict(collections.Counter(f"{by_id[s['id']]['policy']}:{s['clause']}" for s in sides if s["id"] in by_id)),
             "licence_and_timeout_skips": dict(skips),
